@@ -130,6 +130,8 @@ class C03(Property):
                    "mode": "product", "pe": [0, 1, 2], "pl": [0, 1], "pv": [0], "single_eval": True,
                    "runs": [{"cfg": [1, 0, 0], "how": "inproc", "sched": 0}, {"cfg": [2, 0, 0], "how": "sim", "sched": 1}, {"cfg": [2, 2, 4], "how": "sim", "sched": 2}]})
         cs.append(c01.cache_defect_case())
+        # fixed finding F2 (e4fe683): a single triple over a logged, shuffled environment on a worker vs. alone in-process
+        cs.append({"envs": [{"branches": [[["shuffle", 2]]], "log_seed": 3, "logged": True, "n": 12, "na": 2, "prefix": [], "seed": 1, "src": "linear"}], "kind": "builtin", "lrns": [{"tag": 0, "type": "pmf"}, {"seed": 4, "type": "random"}, {"eps": 0.05, "seed": 4, "type": "eps"}], "mode": "product", "pe": [1], "pl": [2], "pv": [1], "runs": [{"cfg": [2, 2, 3], "how": "sim", "sched": 921037}], "seed": 1, "vals": [{"eval": "on", "learn": "on", "record": ["reward", "action", "probability"], "seed": None, "type": "seq"}, {"eval": "on", "learn": "on", "record": ["reward", "action", "context", "time"], "seed": None, "type": "seq"}]})
         # built-in stateful learners shared between environments
         cs.append({"kind": "builtin", "seed": 1, "envs": [{"src": "linear", "n": 12, "na": 3, "seed": 2, "prefix": [], "branches": [[["shuffle", 2]]]}],
                    "lrns": [{"type": "eps", "eps": 0.1, "seed": 1}, {"type": "ucb", "seed": 2}, {"type": "pmf", "tag": 1}],
